@@ -118,9 +118,20 @@ def summarize(err):
 
 
 def run_model(cfg, lines, timeout=600):
-    rc, got, err = run_proc([driver(), cfg], lines, timeout, limit_mem=6 << 30)
-    if got and got[-1] == "":
-        got = got[:-1]
+    """the model is a pure function: a wall-clock timeout only says the machine was busy, so the cases not answered
+    yet are run again with twice the time (three rounds) before the run counts as failed"""
+    got, t, rc, err = [], timeout, 0, ""
+    for _ in range(3):
+        rc, out, err = run_proc([driver(), cfg], lines[len(got):], t, limit_mem=6 << 30)
+        if rc == -999:
+            out = out[:-1]          # "" after the last complete line, or a partial line
+            got += out
+            t *= 2
+            continue
+        if out and out[-1] == "":
+            out = out[:-1]
+        got += out
+        break
     if rc != 0 or len(got) != len(lines):
         got = got + ["MODELFAIL rc=%s %s" % (rc, err[:200])] * (len(lines) - len(got))
     return got
